@@ -1,4 +1,5 @@
 import FalconModel.Multipart
+import FalconModel.MultipartFlat
 open Rd Mp
 
 def hexD (n : Nat) : Char := if n < 10 then Char.ofNat (48+n) else Char.ofNat (87+n)
@@ -70,10 +71,40 @@ def step (s : St) (line : String) : St × String :=
     | _ => (s, "bad-op")
   | _ => (s, "bad-op")
 
+/-! ### C13 cursor level: the reference encoder `Mf.encodeForm` and the flat parser `Mf.parseAll` -/
+
+def hexOr (b : Bytes) : String := if b.isEmpty then "-" else toHex b
+
+/-- `l1,l2,...|content;...` (`_` = no header lines, `-` = empty line / empty content / no parts) -/
+def parseParts (s : String) : List Mf.Part :=
+  if s == "-" then [] else
+  (s.splitOn ";").map fun ps =>
+    match ps.splitOn "|" with
+    | [ls, c] => { lines := if ls == "_" then [] else (ls.splitOn ",").map fromHex, content := fromHex c }
+    | _ => { lines := [], content := [] }
+
+def showFlatErr : Mf.Err → String
+  | .structure => "structure" | .incompleteHeaders => "headers" | .cte => "cte" | .tooManyParts => "count"
+
+def showFlat (x : List (Mf.Headers × Bytes) × Mf.Outcome) : String :=
+  let ps := x.1.map fun (h, c) => s!"p {let t := showHeaders h; if t.isEmpty then "-" else t} {hexOr c} "
+  String.join ps ++ (match x.2 with | .finished => "end" | .error e => "err " ++ showFlatErr e | .fuel => "fuel")
+
+def flatStep (ws : List String) : Option String :=
+  match ws with
+  | ["encode", b, pre, epi, fin, parts] =>
+    some (hexOr (Mf.encodeForm (parseParts parts) (fromHex b) (fromHex pre) (fromHex epi) (fin == "1")))
+  | ["parseflat", body, b, maxhdr, maxcount] =>
+    some (showFlat (Mf.parseAll (fromHex body) (fromHex b) ⟨maxhdr.toInt!, maxcount.toInt!⟩))
+  | _ => none
+
 partial def loop (h : IO.FS.Stream) (s : St) : IO Unit := do
   let line ← h.getLine
   if line.isEmpty then return ()
-  let (s', out) := step s line
-  IO.println out
-  loop h s'
+  match flatStep (line.trimAscii.toString.splitOn " ") with
+  | some out => IO.println out; loop h s
+  | none =>
+    let (s', out) := step s line
+    IO.println out
+    loop h s'
 def main : IO Unit := do loop (← IO.getStdin) .none
